@@ -6,6 +6,7 @@ import (
 	"fmt"
 	"hash/fnv"
 	"os"
+	"runtime/debug"
 	"sort"
 	"strconv"
 	"strings"
@@ -621,6 +622,9 @@ func explore(w *World, harnessNames []string, cfg *runConfig, workers int, solve
 					mu.Lock()
 					if fatal == nil {
 						fatal = fmt.Sprintf("%v (harness %s, prefix %v)", r, ex.harness, ex.prefix)
+						if os.Getenv("SYMGO_TRACE") != "" {
+							fatal = fmt.Sprintf("%v\n%s", fatal, debug.Stack())
+						}
 					}
 					mu.Unlock()
 					q.stop()
